@@ -11,7 +11,7 @@ def step (_ : Unit) (j : Json) : Unit × Json :=
   match strD j "op" with
   | "count" => ((), Json.mkObj [("pairs", encPairs (countReport clzs))])
   | "concept" => ((), Json.mkObj [("pairs", encPairs (conceptReport clzs))])
-  | "evaluate" =>
+  | "evaluate" | "evaluatesrc" =>      -- evaluatesrc: clzs / identifiers are what the SOURCE of the case says
     let ids := Dec.dss j "identifiers"
     let s := summary clzs ids
     let nn := nullableNames ids
